@@ -18,7 +18,7 @@ def cellx(out):
 
 def build(tier, seed):
     quick = tier == "quick"
-    T = 120 if quick else 900
+    T = 240 if quick else 900
     obs = []
     for n in ((1, 2, 3, 4, 6) if quick else (1, 2, 3, 4, 5, 6, 8, 10, 12)):
         obs.append(Ob(oid="O1.col_widths.n%d" % n, kind="py", target="vf.engb_obs:col_widths", kwargs={"n": n, "tier": tier, "seed": seed},
@@ -69,14 +69,14 @@ from vf.fakes import FakeFrame
             return ["HROW"]
     r.encoding_service = Rec()
     import rtflite.encoding.renderer as rmod
-    saved = rmod.pl
-    rmod.pl = minipl.pl
+    saved = minipl.substituted()
+    saved.__enter__()
     try:
         doc = NS(rtf_column_header=[hdr], rtf_body=NS(as_colheader=True, col_rel_width=body_w), rtf_page=NS(border_first="double", col_width=w))
         page = NS(is_first_page=first, data=minipl.Frame({"c%d" % j: ["x"] for j in range(k, ncol)}), table_attrs=NS(col_rel_width=disp_w))
         out = PageRenderer._render_column_headers(r, doc, page)
     finally:
-        rmod.pl = saved
+        saved.__exit__()
     if out != ["HROW"] or len(seen) != 1:
         return False
     cells, cw = seen[0]
